@@ -18,8 +18,8 @@ ID = "C07"
 CASES = {"quick": 5000, "thorough": 50000}
 FLOOR = {"quick": 3500, "thorough": 35000}
 FLOOR_COUNTERS = {
-    "quick": {"staged_fits_with_a_refused_warm_start": 300, "numpy_scalar_parameters": 800, "configured_not_by_constructor": 2000, "non_default_containers": 2000, "integer_typed_inputs": 300, "picks_judged": 12000, "stale_score_picks": 3000, "residual_checks": 3000, "relation_fits": 2000, "estimators_with_a_past": 1000, "small_unit_cases": 300},
-    "thorough": {"staged_fits_with_a_refused_warm_start": 3500, "numpy_scalar_parameters": 9000, "configured_not_by_constructor": 20000, "non_default_containers": 20000, "integer_typed_inputs": 3000, "picks_judged": 90000, "stale_score_picks": 10000, "residual_checks": 15000, "relation_fits": 10000, "estimators_with_a_past": 10000, "small_unit_cases": 3000},
+    "quick": {"staged_fits_with_a_refused_warm_start": 300, "numpy_scalar_parameters": 800, "configured_not_by_constructor": 2000, "non_default_containers": 2000, "integer_typed_inputs": 300, "picks_judged": 12000, "stale_score_picks": 3000, "residual_checks": 3000, "relation_fits": 2000, "estimators_with_a_past": 1000, "small_unit_cases": 220},
+    "thorough": {"staged_fits_with_a_refused_warm_start": 3500, "numpy_scalar_parameters": 9000, "configured_not_by_constructor": 20000, "non_default_containers": 20000, "integer_typed_inputs": 3000, "picks_judged": 90000, "stale_score_picks": 10000, "residual_checks": 15000, "relation_fits": 10000, "estimators_with_a_past": 10000, "small_unit_cases": 2200},
 }
 RULE = (
     "case = (CUR | PCov-CUR) x (feature | sample), matrix family with rank above the request, k in {1,2,3}, mixing in "
